@@ -198,8 +198,10 @@ NShadow == 34
 ShadowIdx == {x \in [f : {"shadow"}, nm : ShadowNames, i : 1..NShadow] : ~(x.i = 21)} \cup [f : {"shadow"}, nm : {"len"}, i : {21}]
 
 (* ----------------------------------------------------- C01: folding *)
-FoldVals == <<I(0), I(1), I(2), I(7), Un("-", I(1)), S(""), S("a"), T, F, U>>
-FoldOps == <<"+", "-", "*", "/", "==", "!=", "<", ">", "&&", "||">>
+RawL(src, falsy) == Lit([t |-> "raw", src |-> src, falsy |-> falsy])
+FoldVals == <<I(0), I(1), I(2), I(7), Un("-", I(1)), S(""), S("a"), T, F, U,
+              RawL("0.0", FALSE), RawL("1.5", FALSE), RawL("2.0", FALSE), RawL("0u", TRUE), RawL("3u", FALSE), RawL("'a'", FALSE), RawL("'\\x00'", TRUE)>>
+FoldOps == <<"+", "-", "*", "/", "==", "!=", "<", ">", "&&", "||", "%", "<<", ">>", "&", "|", "^", "&^", "<=", ">=">>
 \* where the constant expression sits: returned, in a function that is called, in dead code
 FoldProg(c) ==
   LET e == Bin(FoldOps[c.op], FoldVals[c.a], FoldVals[c.b]) IN
@@ -499,7 +501,8 @@ DisabledIrrelevant == (ph = 1 /\ c.f \notin {"mod", "frag"}) => LET p == ProgOf(
 \* the reference semantics determines the observation (operand combinations outside its
 \* fragment are still replayed and compared across compiler configurations)
 RefKnown(p) == LET r == RunP(p) IN ~(r.o[1] = "thr" /\ r.o[2].name = "unmodelled-op")
-FoldExprKnown(cc) == RefKnown(P0(<<Ret(Bin(FoldOps[cc.op], FoldVals[cc.a], FoldVals[cc.b]))>>))
+IsRawE(e) == e.k = "lit" /\ e.v.t = "raw"
+FoldExprKnown(cc) == ~IsRawE(FoldVals[cc.a]) /\ ~IsRawE(FoldVals[cc.b]) /\ RefKnown(P0(<<Ret(Bin(FoldOps[cc.op], FoldVals[cc.a], FoldVals[cc.b]))>>))
 NoExp == [o |-> <<"ret", VUndef>>, log |-> <<>>, globals |-> <<>>]
 ExportFrag == (ph = 1 /\ c.f = "frag") =>
    CSVWrite("%1$s", <<ToJson([fam |-> c.f, id |-> [f |-> c.f, s |-> c.s, cut |-> c.cut], prog |-> ProgOf(c), frag |-> FragExp(c)])>>, IOEnv.OUT)
